@@ -2,6 +2,7 @@ package c10
 
 import (
 	"bytes"
+	"encoding/binary"
 	"encoding/json"
 	"fmt"
 	"regexp"
@@ -24,7 +25,8 @@ type seedRow struct {
 type faultSpec struct {
 	// "batch" (the rows PutBatch of registry Reg) | "ver" (the version-row Put of registry Reg);
 	// for a rename also "write" (its K-th storage write call fails, whatever it is) and
-	// "stop" (the process stops after its K-th write call: every later write fails; K = 0: before any)
+	// "stop" (the process stops after its K-th write call: every later write fails; K = 0: before any);
+	// for a start / retry also "nthbatch" (the K-th PutBatch it issues fails, whichever registry)
 	Point string `json:"point"`
 	Reg   int    `json:"reg"`
 	K     int    `json:"k,omitempty"`
@@ -54,12 +56,13 @@ type recObs struct {
 }
 
 type stepObs struct {
-	Code int      `json:"code"`
-	Err  string   `json:"err,omitempty"`
-	Dump dump     `json:"rows_after"`
-	QIDs []lookup `json:"qname_ids,omitempty"`
-	SIDs []lookup `json:"singleton_ids,omitempty"`
-	Recs []recObs `json:"records,omitempty"`
+	Code  int      `json:"code"`
+	Calls []string `json:"storage_calls,omitempty"`
+	Err   string   `json:"err,omitempty"`
+	Dump  dump     `json:"rows_after"`
+	QIDs  []lookup `json:"qname_ids,omitempty"`
+	SIDs  []lookup `json:"singleton_ids,omitempty"`
+	Recs  []recObs `json:"records,omitempty"`
 }
 
 type scenario struct {
@@ -160,6 +163,8 @@ func (f *faultSpec) coq() string {
 		return fmt.Sprintf("(FailWrite %d)", f.K)
 	case "stop":
 		return fmt.Sprintf("(StopAfter %d)", f.K)
+	case "nthbatch":
+		return fmt.Sprintf("(FailNthBatch %d)", f.K)
 	}
 	return fmt.Sprintf("(FailVer %d)", f.Reg)
 }
@@ -292,6 +297,9 @@ func run(sc *scenario) (coq string, tags []string, err error) {
 	fired := false
 	inRename := false
 	nWrites := 0 // storage write calls issued by the current rename
+	recording := false
+	nBatches := 0
+	var calls []string
 	wrap := &kit.Wrap{Inner: inner}
 	wrap.Before = func(c *kit.Call) kit.Verdict {
 		isWrite := false
@@ -302,10 +310,35 @@ func run(sc *scenario) (coq string, tags []string, err error) {
 		if inRename && isWrite {
 			nWrites++
 		}
+		if recording && isWrite {
+			// the storage calls of a start / retry / rename, as attempted, for `agrees`
+			reg := func(pk []byte) int {
+				for r, k := range regPK {
+					if bytes.Equal(pk, k) {
+						return r
+					}
+				}
+				return 9
+			}
+			switch {
+			case c.Op == "PutBatch":
+				calls = append(calls, fmt.Sprintf("CBatch %d %d", reg(c.PKey), len(c.Items)))
+				nBatches++
+			case c.Op == "Put" && bytes.Equal(c.PKey, pkVersions) && len(c.CCols) == 2:
+				calls = append(calls, fmt.Sprintf("CVer %d", int(binary.BigEndian.Uint16(c.CCols))-1))
+			case c.Op == "Put":
+				calls = append(calls, fmt.Sprintf("CPut %d", reg(c.PKey)))
+			default:
+				calls = append(calls, "CPut 9")
+			}
+		}
 		if active == nil {
 			return kit.Verdict{}
 		}
 		switch {
+		case recording && !inRename && active.Point == "nthbatch" && c.Op == "PutBatch" && nBatches == active.K:
+			fired = true
+			return kit.Verdict{FailBefore: errInjected}
 		case inRename && isWrite && active.Point == "write" && nWrites == active.K:
 			fired = true
 			return kit.Verdict{FailBefore: errInjected}
@@ -364,12 +397,13 @@ func run(sc *scenario) (coq string, tags []string, err error) {
 			}
 			inRename, nWrites = true, 0
 			var e error
+			recording, nBatches, calls = true, 0, nil
 			if p := guard(func() { e = rename(st, s.Old, s.New) }); p != "" {
 				e = fmt.Errorf("%w: %s", errPanic, p)
 				tagset["panic-in-code-under-test"] = true
 				abandoned = true
 			}
-			inRename, active = false, nil
+			inRename, active, recording = false, nil, false
 			obs.Code = errClass(e)
 			if e != nil {
 				obs.Err = e.Error()
@@ -377,7 +411,8 @@ func run(sc *scenario) (coq string, tags []string, err error) {
 			if obs.Dump, err = readDump(inner); err != nil {
 				return "", nil, err
 			}
-			terms = append(terms, fmt.Sprintf("TRename %s %s %s %d %s", nm(s.Old), nm(s.New), s.Fault.coq(), obs.Code, obs.Dump.coq()))
+			terms = append(terms, fmt.Sprintf("TRename %s %s %s %s %d %s", nm(s.Old), nm(s.New), s.Fault.coq(), kit.List(calls), obs.Code, obs.Dump.coq()))
+			obs.Calls = append([]string{}, calls...)
 			tagset[fmt.Sprintf("rename:code%d", obs.Code)] = true
 			tagset[fmt.Sprintf("rename:writes%d", nWrites)] = true
 			if oldID := rowID(before.Q, s.Old); oldID != 0 && rowID(obs.Dump.Q, s.New) == oldID && rowID(obs.Dump.Q, s.Old) == 0 {
@@ -426,13 +461,16 @@ func run(sc *scenario) (coq string, tags []string, err error) {
 			}
 			sort.Strings(docs)
 			var as istructs.IAppStructs
+			recording, nBatches, calls = true, 0, nil
 			if p := guard(func() { as, e = proc.get() }); p != "" {
 				e = fmt.Errorf("%w: %s", errPanic, p)
 				tagset["panic-in-code-under-test"] = true
 				abandoned = true
 			}
 			proc.ready = e == nil
-			active = nil
+			active, recording = nil, false
+			startCalls := append([]string{}, calls...)
+			obs.Calls = startCalls
 			obs.Code = errClass(e)
 			if e != nil {
 				obs.Err = e.Error()
@@ -442,7 +480,7 @@ func run(sc *scenario) (coq string, tags []string, err error) {
 			}
 			tagset[fmt.Sprintf("%s:code%d", s.Kind, obs.Code)] = true
 			if s.Fault != nil {
-				tagset[fmt.Sprintf("fault:%s%d", s.Fault.Point, s.Fault.Reg)] = true
+				tagset[fmt.Sprintf("fault:%s%d", s.Fault.Point, s.Fault.Reg+s.Fault.K)] = true
 				if fired {
 					tagset["fault-fired"] = true
 				}
@@ -498,7 +536,7 @@ func run(sc *scenario) (coq string, tags []string, err error) {
 					if proc.hasRec {
 						seenC := map[string]bool{}
 						for _, c := range cn {
-							if seenC[c] {
+							if seenC[c] || len(seenC) >= 6 { // big schemas: a few containers are enough
 								continue
 							}
 							seenC[c] = true
@@ -568,8 +606,8 @@ func run(sc *scenario) (coq string, tags []string, err error) {
 					tagset["F20:duplicate-ids-after-rows-without-version"] = true
 				}
 			}
-			terms = append(terms, fmt.Sprintf("TStart %s %s %s %s %s %s %d %s %s %s %s",
-				kit.Bool(retry), coqNames(qn), coqNames(cn), coqNames(sn), coqNames(docs), s.Fault.coq(), obs.Code, obs.Dump.coq(),
+			terms = append(terms, fmt.Sprintf("TStart %s %s %s %s %s %s %s %d %s %s %s %s",
+				kit.Bool(retry), coqNames(qn), coqNames(cn), coqNames(sn), coqNames(docs), s.Fault.coq(), kit.List(startCalls), obs.Code, obs.Dump.coq(),
 				coqLookups(obs.QIDs), coqLookups(obs.SIDs), kit.List(recTerms)))
 		}
 	}
